@@ -591,7 +591,10 @@ theorem cardStep_spec (o : CardOpts) (ts : List Bool) (s : St) : StepSpec ts s (
   rw [hr] at hs
   have h1 : mon s1.log = some q := by rw [hs.mon]; exact hq
   cases r1 with
-  | error e => exact ⟨q, h1, trivial, Nat.le_refl _⟩
+  | error e =>
+    by_cases hce : isCommErr e = true
+    · simp only [hce, if_true]; exact ⟨q, h1, hidle, Nat.le_refl _⟩
+    · simp only [hce]; exact ⟨q, h1, trivial, Nat.le_refl _⟩
   | ok o1 =>
     cases o1 with
     | none => exact ⟨q, h1, hidle, Nat.le_refl _⟩
